@@ -241,6 +241,21 @@ example : OnGrid (0 : ℚ) 4 5 [(0, 3), (1, 4)] := by
   · exact ⟨1, by norm_num, by norm_num [node, stepOf]⟩
   · exact ⟨4, by norm_num, by norm_num [node, stepOf]⟩
 
+/-- **the bound is attained**: the bar `(1/2, 7/2)` on the grid `0,1,2,3,4` has both endpoints on
+    midpoints; `np.argmin` snaps them to nodes `0` and `3`, the sampled value at node `2` is `1`, the
+    true landscape there is `3/2`, and `step/2 = 1/2`. -/
+theorem half_step_attained :
+    (computeLandscape [((1 / 2 : ℚ), (7 / 2 : ℚ))] 0 4 5).rows = [[0, 1, 1, 0, 0]] ∧
+    landscape [((1 / 2 : ℚ), (7 / 2 : ℚ))] 0 (node (0 : ℚ) 4 5 2) = 3 / 2 ∧
+    stepOf (0 : ℚ) 4 5 / 2 = 1 / 2 := by
+  refine ⟨by decide +kernel, by decide +kernel, by decide +kernel⟩
+
+/-- concrete runs of the model (the docstring example of the class; a second depth; the placeholder) -/
+example : (computeLandscape [((0 : ℚ), (2 : ℚ)), (2, 4)] 0 4 5).rows = [[0, 1, 0, 1, 0]] := by
+  decide +kernel
+
+example : (computeLandscape [((1 : ℚ), (3 : ℚ))] 0 4 2).rows = [] := by decide +kernel
+
 /-! ### the transformer -/
 
 /-- **transformer_is_approx**: `PersistenceLandscaper.transform` returns exactly the values of
@@ -306,36 +321,47 @@ theorem vectorize_samples_evalPL (interp : List (K × K) → K → K)
     (cps : List (List (K × K))) (hwf : ∀ l ∈ cps, Increasing l ∧ FirstZero l ∧ LastZero l)
     (start stop : Option K) (n : Nat) (m : List (List K))
     (hv : vectorize interp cps start stop n = .ok m) :
-    ∃ s e, (start = some s ∨ start = none) ∧ (stop = some e ∨ stop = none) ∧ s ≤ e ∧
+    ∃ d0 rest s e, cps = d0 :: rest ∧
+      (start = some s ∨ (start = none ∧ minAbscissa d0 = some s)) ∧
+      (stop = some e ∨ (stop = none ∧ maxAbscissa d0 = some e)) ∧ s ≤ e ∧ n ≠ 0 ∧
       m = cps.map fun depth => (linspace s e n).map fun t => evalPL depth t := by
   unfold vectorize at hv
-  split at hv
-  · simp at hv
-  · rename_i d0 rest
-    split at hv
-    · simp at hv
-    · rename_i s hs
-      split at hv
-      · simp at hv
-      · rename_i e he
-        split at hv
-        · simp at hv
-        · split at hv
-          · simp at hv
-          · split at hv
-            · simp at hv
-            · rename_i hlt
-              simp only [Except.ok.injEq] at hv
-              refine ⟨s, e, ?_, ?_, not_lt.mp hlt, ?_⟩
-              · cases start <;> simp_all
-              · cases stop <;> simp_all
-              · rw [← hv]
-                apply List.map_congr_left
-                intro depth hdepth
-                apply List.map_congr_left
-                intro t _
-                obtain ⟨h1, h2, h3⟩ := hwf depth hdepth
-                rw [hinterp depth t h1, npInterp_eq_evalPL depth h1 h2 h3 t]
+  cases cps with
+  | nil => simp at hv
+  | cons d0 rest =>
+    simp only at hv
+    have hstart : ∀ s, optOr start (minAbscissa d0) = some s →
+        (start = some s ∨ (start = none ∧ minAbscissa d0 = some s)) := by
+      intro s h; cases start with
+      | none => exact Or.inr ⟨rfl, h⟩
+      | some s' => left; simpa [optOr] using h
+    have hstop : ∀ e, optOr stop (maxAbscissa d0) = some e →
+        (stop = some e ∨ (stop = none ∧ maxAbscissa d0 = some e)) := by
+      intro e h; cases stop with
+      | none => exact Or.inr ⟨rfl, h⟩
+      | some e' => left; simpa [optOr] using h
+    cases h1 : optOr start (minAbscissa d0) with
+    | none => simp [h1] at hv
+    | some s =>
+      cases h2 : optOr stop (maxAbscissa d0) with
+      | none => simp [h1, h2] at hv
+      | some e =>
+        simp only [h1, h2] at hv
+        by_cases c1 : ((d0 :: rest).any List.isEmpty) = true
+        · simp [c1] at hv
+        · by_cases c2 : n = 0
+          · simp [c1, c2] at hv
+          · by_cases c3 : e < s
+            · simp [c1, c2, c3] at hv
+            · simp only [c1, c2, c3, Bool.false_eq_true, ↓reduceIte, Except.ok.injEq] at hv
+              refine ⟨d0, rest, s, e, rfl, hstart s h1, hstop e h2, not_lt.mp c3, c2, ?_⟩
+              rw [← hv]
+              apply List.map_congr_left
+              intro depth hdepth
+              apply List.map_congr_left
+              intro t _
+              obtain ⟨w1, w2, w3⟩ := hwf depth hdepth
+              rw [hinterp depth t w1, npInterp_eq_evalPL depth w1 w2 w3 t]
 
 /-- the contract is satisfiable (by the function the driver runs), and a tent-shaped depth meets
     the well-formedness hypotheses -/
